@@ -132,6 +132,18 @@ fn directive_table() -> Vec<String> {
         "a:\n  - b\n",
         "\"a\n  b\"\n",
         "# just a comment\n",
+        "%YAML 1.2\n---\n",
+        "%YAML 1.2\n---\n...\n",
+        "%TAG !e! tag:e:\n---\n",
+        "%YAML 1.2\n--- # empty\n",
+        "%YAML 1.2\n---\nb: 1\n",
+        "...\n",
+        "# c\n...\n",
+        "--- a\n...\n...\n",
+        "\n",
+        "--- >\n",
+        "--- [a,\n b]\n",
+        "- |\n a\n-\n",
     ]
     .iter()
     .map(|s| s.to_string())
